@@ -31,6 +31,7 @@ let txth (toks : string list) : string =
       | "T" :: s :: r -> ops (TTitle (parse_l s) :: acc) r
       | "H" :: k :: r -> ops (THas (parse_l k) :: acc) r
       | "G" :: k :: r -> ops (TGet (parse_l k) :: acc) r
+      | "R" :: r -> ops acc r      (* save + load in mid-history: the identity on title and entries (C06_history_round_trip) *)
       | [] -> List.rev acc
       | x :: _ -> failwith ("txth: bad token " ^ x) in
     (match TextCodec.history_file Checked fmt endian (ops [] rest) with
